@@ -449,7 +449,7 @@ def exc_of(st: ast.Raise) -> str:
 
 
 def leantype(t: str) -> str:
-    return t.replace("Str", "String")
+    return re.sub(r"\bStr\b", "String", t)
 
 
 def translate_function(fn: ast.FunctionDef, name: str, params: list[tuple[str, str]], ret: str,
